@@ -126,7 +126,18 @@ FAULTS = [
     ("cyclic-definition", "eval", "error", "recursive-definition", ["cy{u} = cy{u}", ".word cy{u}"]),
     ("negative-block", "eval", "error", "value-out-of-bounds", [".blkb -1"]),
     ("negative-repeat", "eval", "error", "value-out-of-bounds", [".repeat -1 { nop }"]),
+] + [
+    # faults that live ONLY in a definition nothing refers to, written with forward references so that the value
+    # cannot be computed where it is defined: they are found when the linker resolves every symbol at the end
+    ("unused-undefined-symbol", "unused-definition", "error", "undefined-symbol", ["spare{u} = nosuch{u} + 2"]),
+    ("unused-division-by-zero", "unused-definition", "error", "arithmetic-error", ["spare{u} = 1/zero{u}", "zero{u} = 0"]),
+    ("unused-modulo-zero", "unused-definition", "error", "arithmetic-error", ["spare{u} = 7 % zero{u}", "zero{u} = 0"]),
+    ("unused-cyclic", "unused-definition", "error", "recursive-definition", ["spa{u} = spb{u} + 1", "spb{u} = spa{u} + 1"]),
+    ("unused-register-value", "unused-definition", "error", "unexpected-register", ["spare{u} = later{u} + r1", "later{u} = 2"]),
+    ("unused-label-division", "unused-definition", "error", "arithmetic-error", ["spare{u} = 10/(fl{u} - fm{u})", "fl{u}:", "fm{u}:"]),
+    ("unused-bare-8", "unused-definition", "error", "invalid-number", ["spare{u} = later{u} + 8", "later{u} = 1"]),
 ]
+UNUSED = [f for f in FAULTS if f[1] == "unused-definition"]
 # planted faults after which the assembler is known to die with an internal error (C08's business; an error is
 # reported first, so C07 still expects status != 0 and no files).  ('\\x1' was one until it was fixed.)
 CRASH_FAULTS = [("nesting-beyond-recursion-limit", "parse", "crash", "", [".word " + "(" * 400 + "1" + ")" * 400])]
@@ -409,8 +420,31 @@ def python_oracle(run, expected, same):
         if sorted(run["changed"]) != sorted(expected) or run["removed"]:
             probs.append("successful run wrote %s, expected %s" % (run["changed"], sorted(expected)))
     if not same:
-        probs.append("differs from the other -W/format variants")
+        probs.append("status/files/bytes differ from the other -W/format variants, or the status differs under other output options")
     return probs
+
+
+def make_family(rng, fi, gi0, wnames):
+    """One program under every output selector x with/without --lst: the status must not depend on the output options.
+    Even families carry exactly one fault that lives in an unused definition, odd ones only warnings."""
+    base = gen_base(rng)
+    if fi % 2 == 0:
+        f = UNUSED[(fi // 2) % len(UNUSED)]
+        lines, kinds, wids, adir = plant(rng, base, 0, rng.choice([0, 0, 1]))
+        pos = rng.randrange(len(lines) + 1)
+        lines[pos:pos] = [x.replace("{u}", "7") for x in f[4]]
+        kinds = [f[0]]
+    else:
+        lines, kinds, wids, adir = plant(rng, base, 0, rng.choice([1, 2]))
+    groups = []
+    for sel in SELECTORS:
+        for lst in (False, True):
+            l2, sel_argv, expected = apply_selector(rng, lines, sel, lst)
+            decoys = [e for e in expected if rng.random() < 0.5] if rng.random() < 0.5 else []
+            variants = [("bare", []), (rng.choice(["bare", "graphical"]), w_selection(rng, wnames))]
+            groups.append({"gi": gi0 + len(groups), "files": {"a.mac": "\n".join(l2) + "\n"}, "adir": adir, "decoys": decoys, "kinds": kinds,
+                           "wids": wids, "sel": sel, "lst": lst, "sel_argv": sel_argv, "expected": expected, "variants": variants, "family": fi})
+    return groups
 
 
 def make_group(rng, gi, wnames, tier):
@@ -478,11 +512,20 @@ def ascii_ok(s):
     return all(32 <= ord(c) < 127 for c in s)
 
 
-def cli_part(rep, rng, tier, ngroups, use_coq=True):
+def cli_part(rep, rng, tier, ngroups, use_coq=True, nfamilies=0):
     wnames = all_warning_names()
     groups = [make_group(rng, gi, wnames, tier) for gi in range(ngroups)]
+    for fi in range(nfamilies):
+        groups += make_family(rng, fi, len(groups), wnames)
     with ThreadPoolExecutor(max_workers=C.NPROC) as ex:
         all_runs = list(ex.map(run_group, groups))
+    family_ref = {}
+    for g, runs in zip(groups, all_runs):
+        if "family" in g and g["family"] not in family_ref:
+            family_ref[g["family"]] = (g, runs[0])
+    if nfamilies:
+        rep.exhaustive_parts.append(f"{nfamilies} programs each run under all {len(SELECTORS)} output selectors x with/without --lst "
+                                    f"(status must not depend on the output options); unused-definition fault kinds: {len(UNUSED)}")
     terms, meta = [], []
     for g, runs in zip(groups, all_runs):
         full, outcome = inprocess_full(g["files"], g["adir"], f"g{g['gi']}")
@@ -492,6 +535,12 @@ def cli_part(rep, rng, tier, ngroups, use_coq=True):
             rep.traces_validated += 1
             same = (run["status"] == ref["status"] and run["changed"] == ref["changed"] and run["contents"] == ref["contents"]
                     and run["removed"] == ref["removed"])
+            fam = None
+            if "family" in g:
+                fg, frun = family_ref[g["family"]]
+                fam = {"files": fg["files"], "adir": fg["adir"], "decoys": fg["decoys"], "argv": argv_of(fg, *fg["variants"][0]), "status": frun["status"]}
+                same = same and run["status"] == frun["status"]
+                rep.count("family-run")
             rep.count("cli:" + ("ok" if run["status"] == 0 else ("internal-error" if run["internal"] else "failed")))
             rep.count("selector:" + g["sel"] + ("+lst" if g["lst"] else ""))
             rep.count("format:" + fmt)
@@ -504,6 +553,8 @@ def cli_part(rep, rng, tier, ngroups, use_coq=True):
                 rep.nontrivial(("cli", tuple(g["kinds"]), tuple(g["wids"]), g["sel"], g["lst"], tuple(ws), fmt))
             inp = {"files": g["files"], "adir": g["adir"], "decoys": g["decoys"], "argv": argv_of(g, fmt, ws), "expected": g["expected"],
                    "reference_argv": argv_of(g, *g["variants"][0]), "faults": g["kinds"], "warnings": g["wids"]}
+            if fam is not None:
+                inp["same_program_other_output_options"] = fam
             if run["timeout"]:
                 rep.disagree("command-line run timed out (60 s and again 240 s)", inp)
                 continue
@@ -751,7 +802,7 @@ def explore(rep, br, tier, seed):
         catalogue_selftest(rep)
         block_part(rep, rng, 400 if tier == "quick" else 4000)
         wargs_part(rep, rng, 150 if tier == "quick" else 1500)
-        cli_part(rep, rng, tier, 126 if tier == "quick" else 700)
+        cli_part(rep, rng, tier, 126 if tier == "quick" else 700, nfamilies=4 if tier == "quick" else 14)
     finally:
         cleanup()
 
@@ -783,7 +834,7 @@ def search(rep, br, tier, seed):
                             replay="props.c07.run_block(warning_control, swallow, trace)")
                 break
         if not rep.violations:
-            cli_part(rep, rng, tier, 60 if tier == "quick" else 300, use_coq=False)
+            cli_part(rep, rng, tier, 60 if tier == "quick" else 300, use_coq=False, nfamilies=4)
     finally:
         cleanup()
 
@@ -807,6 +858,11 @@ def replay(data):
         run = run_cli(d, inp["files"], inp["adir"], inp["decoys"], inp["argv"])
         ref = run_cli(d, inp["files"], inp["adir"], inp["decoys"], inp["reference_argv"])
         same = run["status"] == ref["status"] and run["changed"] == ref["changed"] and run["contents"] == ref["contents"]
+        fam = inp.get("same_program_other_output_options")
+        if fam:
+            frun = run_cli(d, fam["files"], fam["adir"], fam["decoys"], fam["argv"])
+            print("same program, other output options:", fam["argv"], "status:", frun["status"])
+            same = same and frun["status"] == run["status"]
         probs = python_oracle(run, inp["expected"], same)
         print("argv:", inp["argv"], "status:", run["status"], "written:", run["changed"], "shown:", run["shown"])
         print("problems:", probs)
